@@ -322,6 +322,9 @@ func Generate(profile string, seed uint64, tier string) (*Scenario, error) {
 	case "C09c":
 		sc.Property = "C09"
 		genC09c(g, sc, tier)
+	case "C16c":
+		sc.Property = "C16"
+		genC16c(g, sc, tier)
 	default:
 		return genOther(g, sc, profile, tier)
 	}
@@ -496,6 +499,8 @@ func Execute(sc *Scenario) *Verdict {
 		return RunConcCrashScenario(sc)
 	case "C09c":
 		return RunC09cScenario(sc)
+	case "C16c":
+		return RunSecConcScenario(sc)
 	}
 	return execOther(sc)
 }
